@@ -40,8 +40,21 @@ Definition dec_kv (e : sexp) : option (string * template) :=
 Definition dec_opt {A} (f : sexp -> option A) (e : sexp) : option (option A) :=
   match e with Atom "none" => Some None | x => option_map Some (f x) end.
 
+(* typed literal of a set_vars value: (list N) | (map N) | none | (num N) | (bool b) | (str xS) *)
+Definition dec_lit (e : sexp) : option val :=
+  match e with
+  | SList [Atom "list"; n] => option_map (fun n => VList (N.to_nat n)) (atom_N n)
+  | SList [Atom "map"; n] => option_map (fun n => VMap (repeat ("k", VStr "v") (N.to_nat n))) (atom_N n)
+  | Atom "none" => Some VNone
+  | SList [Atom "num"; n] => option_map VNum (atom_N n)
+  | SList [Atom "bool"; b] => option_map VBool (atom_bool b)
+  | SList [Atom "str"; s] => option_map VStr (atom_bytes s)
+  | _ => None
+  end.
+
 Definition dec_mod (e : sexp) : option modcall :=
   match e with
+  | SList [Atom "setlit"; k; v] => match atom_bytes k, dec_lit v with Some k, Some v => Some (MSetLit k v) | _, _ => None end
   | SList [Atom "debug"; t] => option_map MDebugMsg (dec_tpl t)
   | SList (Atom "debugvar" :: p) => option_map MDebugVar (dec_strs p)
   | SList (Atom "setvars" :: kvs) => option_map MSetVars (map_opt dec_kv kvs)
